@@ -87,6 +87,9 @@ type C02Plan struct {
 	// documented, so permits() is not consulted; the library must still agree with
 	// itself: one verdict per intent, whatever the debug mode and the alterations.
 	Lenient bool `json:"lenient,omitempty"`
+	// OuterVary: an outer layer (compression, a response cache, another policy layer) has put
+	// these values into Vary before the middleware runs; the verdict may not depend on them.
+	OuterVary []string `json:"outer_vary,omitempty"`
 	// Switch: at the end the operator switches both middlewares to Other (the pages stay
 	// open) and every intent is run again; the verdict is then what OTHER means.
 	Switch bool `json:"switch,omitempty"`
@@ -326,6 +329,12 @@ func (c02) Gen(r *R, tier string) any {
 			}
 		}
 		p.Switch = r.P(0.3)
+	}
+	if r.P(0.2) {
+		for n := pick(r, []int{1, 1, 2}); n > 0; n-- {
+			p.OuterVary = append(p.OuterVary, pick(r, []string{"Origin", "Origin", "origin", "Accept-Encoding", "Accept-Encoding, Origin", "Cookie",
+				"Access-Control-Request-Method", "Access-Control-Request-Headers, Access-Control-Request-Method, Access-Control-Request-Private-Network, Origin", "X-Forwarded-Origin", "*"}))
+		}
 	}
 	k := pick(r, []int{0, 1, 2, 3, 3, 4, 6})
 	kinds := []string{"ows_left", "ows_right", "ows_both", "empty", "empty", "split", "split", "empty_line"}
@@ -921,6 +930,19 @@ func viaRoute(route int, cfg Cfg, other *Cfg, debug bool, c *Ctx) (m *cors.Middl
 			// hot reload: the operator keeps ONE Config value, edits it in place (same
 			// backing arrays where they are big enough) and passes the same pointer again
 			live := other.Config()
+			if (len(cfg.Origins)+len(cfg.Methods)+len(cfg.RequestHeaders))%2 == 0 {
+				// the smallest edit: the value passed before differs from cfg in ONE element of one
+				// list (same lengths, same scalars), which is then overwritten in place
+				live = cfg.Config()
+				switch {
+				case len(live.Methods) > 0 && live.Methods[0] != "*" && len(cfg.Origins)%2 == 0:
+					live.Methods[0] = "BEFORE"
+				case len(live.Origins) > 0 && live.Origins[0] != "*":
+					live.Origins[0] = "https://before-the-edit.example.org"
+				case len(live.RequestHeaders) > 0 && live.RequestHeaders[0] != "*":
+					live.RequestHeaders[0] = "X-Before-The-Edit"
+				}
+			}
 			m = zeroMW()
 			if m.Reconfigure(&live) != nil {
 				m = nil
@@ -956,6 +978,10 @@ func (c02) Exec(plan any, c *Ctx) *Violation {
 		return nil
 	}
 	srvOff, srvOn := newServer(mOff.Wrap), newServer(mOn.Wrap)
+	if len(p.OuterVary) > 0 {
+		srvOff.preset, srvOn.preset = []HV{{hVary, p.OuterVary}}, []HV{{hVary, p.OuterVary}}
+		c.hit("outer_layer_set_vary")
+	}
 	lenientRef := false
 	for _, in := range p.Intents {
 		wantOff, whyOff := permits(cfgOff, in)
@@ -1183,6 +1209,16 @@ func (c02) Shrink(plan any) []any {
 		q := *p
 		q.Switch = false
 		out = append(out, &q)
+	}
+	if len(p.OuterVary) > 0 {
+		q := *p
+		q.OuterVary = nil
+		out = append(out, &q)
+		if len(p.OuterVary) > 1 {
+			q2 := *p
+			q2.OuterVary = p.OuterVary[:1]
+			out = append(out, &q2)
+		}
 	}
 	if p.Other != nil {
 		q := *p
